@@ -734,7 +734,7 @@ func writeSwitchCaseOverUnion(w *formatting.IndentedWriter, unionType *dsl.Gener
 }
 
 func typeConversionCallable(t dsl.Type) string {
-	switch t := t.(type) {
+	switch t := dsl.GetUnderlyingType(t).(type) {
 	case *dsl.SimpleType:
 		switch t := t.ResolvedDefinition.(type) {
 		case dsl.PrimitiveDefinition:
